@@ -31,5 +31,7 @@ for d in sorted(glob.glob(os.path.join(V, 'seeded', '*'))):
     m = json.load(open(os.path.join(d, 'meta.json'))); c = m.get('confirmed', {})
     print('| %s | %s | %s | %s | %s | %s |' % (os.path.basename(d), m['property'], m['summary'][:160].replace('|', '/').replace('\n', ' '),
           m['needs'][:120].replace('|', '/').replace('\n', ' '),
-          'yes' if c.get('caught_with_failing_input') else ('no-failing-input-found' if c.get('caught') else 'NO'),
-          ', '.join(sorted(set(c.get('violated') or [])))[:120]))
+          ('yes' if c.get('caught_with_failing_input') else ('no-failing-input-found' if c.get('caught') else 'NO'))
+          + (' (after strengthening; first: %s)' % ('missed' if not (c.get('first_result') or {}).get('caught', (c.get('first_result') or {}).get('check_exit') == 1) else 'no-failing-input-found')
+             if c.get('after_strengthening') else ''),
+          ', '.join(sorted(set((c.get('after_strengthening') if isinstance(c.get('after_strengthening'), dict) else {}).get('violated') or c.get('violated') or [])))[:120]))
